@@ -7,6 +7,7 @@ package main
 import (
 	"bytes"
 	"fmt"
+	"math"
 	"sort"
 	"strconv"
 	"strings"
@@ -34,6 +35,7 @@ var beginStrings = []string{"FIX.4.0", "FIX.4.1", "FIX.4.2", "FIX.4.3", "FIX.4.4
 // ---- application / store / validator owned by the harness ----
 
 type hApp struct {
+	now      time.Time
 	log      []Sx
 	store    quickfix.MessageStore
 	toAppOK  bool
@@ -73,6 +75,28 @@ func verdictOf(m *quickfix.Message, tag quickfix.Tag) quickfix.MessageRejectErro
 	return quickfix.NewMessageRejectError("harness", reason, ref)
 }
 
+// what the application can see of the header of the message it is handed
+func (a *hApp) facts(m *quickfix.Message) Sx {
+	begin, _ := m.Header.GetBytes(8)
+	opt := func(tag quickfix.Tag) Sx {
+		if !m.Header.Has(tag) {
+			return None()
+		}
+		v, _ := m.Header.GetBytes(tag)
+		return Some(Bytes(v))
+	}
+	var st Sx
+	if !m.Header.Has(52) {
+		st = Sym("abs")
+	} else if t, err := m.Header.GetTime(52); err != nil {
+		st = Sym("bad")
+	} else {
+		st = L(Sym("val"), Int(int(math.Round(t.Sub(a.now).Seconds()))))
+	}
+	code, _ := m.Body.GetString(tagVerdictValid)
+	return L(Bytes(begin), opt(49), opt(56), st, verdictSx(code))
+}
+
 func (a *hApp) OnCreate(quickfix.SessionID) {}
 func (a *hApp) OnLogon(quickfix.SessionID)  { a.log = append(a.log, Sym("onlogon")) }
 func (a *hApp) OnLogout(quickfix.SessionID) { a.log = append(a.log, Sym("onlogout")) }
@@ -97,7 +121,7 @@ func (a *hApp) ToApp(m *quickfix.Message, _ quickfix.SessionID) error {
 }
 func (a *hApp) FromAdmin(m *quickfix.Message, _ quickfix.SessionID) quickfix.MessageRejectError {
 	t, _ := m.Header.GetBytes(35)
-	a.log = append(a.log, L(Sym("fromadmin"), Bytes(t), fresInt(&m.Header.FieldMap, 34)))
+	a.log = append(a.log, L(Sym("fromadmin"), Bytes(t), fresInt(&m.Header.FieldMap, 34), a.facts(m)))
 	if string(t) == "2" {
 		a.refuse = map[int]bool{}
 		if s, err := m.Body.GetString(tagRefuse); err == nil && s != "" {
@@ -110,7 +134,8 @@ func (a *hApp) FromAdmin(m *quickfix.Message, _ quickfix.SessionID) quickfix.Mes
 	return verdictOf(m, tagVerdictApp)
 }
 func (a *hApp) FromApp(m *quickfix.Message, _ quickfix.SessionID) quickfix.MessageRejectError {
-	a.log = append(a.log, L(Sym("fromapp"), fresInt(&m.Header.FieldMap, 34), Int(a.store.NextTargetMsgSeqNum())))
+	code, _ := m.Body.GetString(tagVerdictApp)
+	a.log = append(a.log, L(Sym("fromapp"), fresInt(&m.Header.FieldMap, 34), Int(a.store.NextTargetMsgSeqNum()), verdictSx(code), a.facts(m)))
 	return verdictOf(m, tagVerdictApp)
 }
 
@@ -443,6 +468,7 @@ func (r *rig) wireSx(raw []byte) Sx {
 func (r *rig) apply(ev Sx) Sx {
 	l := ev.(List)
 	now := time.Now()
+	r.app.now = now
 	r.app.log = nil
 	switch AtomSym(l[0]) {
 	case "connect":
